@@ -11,7 +11,12 @@ to the unchanged judge `c18_judge` (Spec.C18.holds / rootsHold).  New dimensions
 * order     several files per source in both orders (through the real command line for --root-cert, also in the
             `--root-cert=FILE` spelling), the bad file BEFORE the good one, the bad file in ANOTHER source.
 * shape     root file shapes (empty, a directory, a private key only: no certificate -> fail closed; DER, leading
-            text, CRLF, bundles: observed and counted only) and `root_certificates = []` against an absent key.
+            text, CRLF: observed and counted only) and `root_certificates = []` against an absent key.
+* bundle    a root file with several CERTIFICATE blocks gives ONE root certificate, its first block (acmed.8:
+            "--root-cert FILE  Add a root certificate to the trust store.  This option can be used multiple times";
+            acmed.toml.5: "the path to root certificates"; CHANGELOG: "the path to root certificate files"): a server
+            whose chain validates only through a later block must never see a request, one that validates through
+            the first block is trusted; two- and three-block files, in each of the three sources.
 * include   the [global] root list coming from / overridden by included files (manual: the last included file
             that defines a global option wins), the endpoint defined in an included file.
 * swap      the server changes its chain from the k-th connection on, or after the first issuance.
@@ -38,7 +43,12 @@ SOURCES = ["cli", "endpoint", "global"]
 # labels of root files: which ones are certainly a PEM certificate, certainly hold no certificate, or debatable
 FILE_OK = {"needed", "unrelated", "unrelated2"}
 FILE_BAD = {"missing", "garbage", "empty", "dir", "keyonly"}
-FILE_DEBATABLE = {"der", "leadtext", "crlf", "bundle_un", "bundle_nu"}
+FILE_DEBATABLE = {"der", "leadtext", "crlf"}
+# files with several CERTIFICATE blocks: label -> the roots they hold, in order (A = the root of the chains `trusted`,
+# X = the root of the chain `under-x`, U / U2 = roots no served chain leads to).  Such a file is a readable PEM
+# certificate file; the root certificate it GIVES is its first block
+BUNDLES = {"bundle_un": ["U", "A"], "bundle_nu": ["A", "U"], "bundle_uun": ["U", "U2", "A"], "bundle_unu": ["U", "A", "U2"],
+           "bundle_nuu": ["A", "U", "U2"], "bundle_xn": ["X", "A"], "bundle_nx": ["A", "X"]}
 URL_KINDS = ["newNonce", "newAccount", "newOrder", "order", "authz", "challenge", "finalize", "cert"]
 REDIR_KINDS = ["directory", "newNonce", "newAccount", "newOrder", "order", "authz", "challenge", "finalize", "cert"]
 # "ondisk": a chain for the right host name whose root certificate lies in the directory of the listed root files
@@ -238,6 +248,8 @@ def make_material(helper, d, mat):
     mat["inter-omitted"] = chain("int0", False, send_intermediate=False, dns=["localhost"], ips=["127.0.0.1"],
                                  root_cn="verif root I0", intermediate=True)
     mat["ondisk"] = chain("ondisk", False, dns=["localhost"], ips=["127.0.0.1"], root_cn="verif root D")
+    # a second private CA that is fine for the host name: trusted exactly where ITS root is given
+    mat["under-x"] = chain("underx", True, dns=["localhost"], ips=["127.0.0.1"], root_cn="verif root X")
     ss = helper.call({"op": "selfsigned", "type": "ecdsa-p256", "dns": ["localhost"], "ips": ["127.0.0.1"],
                       "not_after_offset": 30 * 86400})
     if "cert_pem" not in ss:
@@ -261,9 +273,17 @@ def make_material(helper, d, mat):
         "der": w("shape-der.pem", base64.b64decode(body), "wb"),
         "leadtext": w("shape-leadtext.pem", "subject=CN = verif root A\nissuer=CN = verif root A\n\n" + root_txt),
         "crlf": w("shape-crlf.pem", root_txt.replace("\n", "\r\n").encode(), "wb"),
-        "bundle_un": w("shape-bundle-un.pem", unrel_txt + root_txt),
-        "bundle_nu": w("shape-bundle-nu.pem", root_txt + unrel_txt),
     }
+    mat["blocks"] = {"A": mat["trusted"]["needed_root"], "U": mat["files"]["unrelated"], "U2": mat["files"]["unrelated2"],
+                     "X": mat["under-x"]["needed_root"]}
+    for label, blocks in BUNDLES.items():
+        txt = ""
+        for b in blocks:
+            with open(mat["blocks"][b]) as f:
+                txt += f.read()
+        if txt.count("-----BEGIN CERTIFICATE-----") != len(blocks):
+            raise RuntimeError("generator: %s does not hold %d certificates" % (label, len(blocks)))
+        mat["files"][label] = w("shape-%s.pem" % label.replace("_", "-"), txt)
     return mat
 
 
@@ -282,6 +302,18 @@ def path_of(label, m, mat):
     if label.startswith("needed:"):
         return mat[label[7:]]["needed_root"]
     return mat["files"][label]
+
+
+def gives_needed(label, m, mat):
+    """Ground truth: is the root certificate this listed file gives the one the served chain needs?  A file with
+    several blocks gives its FIRST one (the documentation speaks of a file as a root certificate)."""
+    if label in BUNDLES:
+        return mat["blocks"][BUNDLES[label][0]] == m["needed_root"]
+    return label == "needed"
+
+
+def needed_in_later_block(label, m, mat):
+    return label in BUNDLES and m["needed_root"] in [mat["blocks"][b] for b in BUNDLES[label][1:]]
 
 
 # ------------------------------------------------------------------------------------------------
@@ -317,8 +349,9 @@ def run_spec(spec, root, mat, helper):
     all_labels = [l for ls in (cli, ep, gl_eff) if ls for l in ls]
     debatable = any(l in FILE_DEBATABLE for l in all_labels) or bool(spec.get("count_only"))
     root_files_ok = not any(l in FILE_BAD for l in all_labels)
-    has_needed = "needed" in all_labels
+    has_needed = any(gives_needed(l, m, mat) for l in all_labels)
     chain_valid = bool(m["can_validate"] and has_needed)
+    later_only = not has_needed and any(needed_in_later_block(l, m, mat) for l in all_labels)
 
     host = spec.get("host") or m.get("host", "localhost")
     chains = [{"cert": m["cert"], "key": m["key"], "label": spec["chain"]}]
@@ -428,6 +461,18 @@ def run_spec(spec, root, mat, helper):
         if isinstance(dump, dict) and "loaded" in dump:
             observed_roots = dump["loaded"]["endpoints"][0]["root_certificates"]
     counts = ["auditd:%s" % item, "auditd:%s:%s" % (item, "requests" if seen else "no-request")]
+    if any(l in BUNDLES for l in all_labels):
+        counts.append("auditd:bundle:%s" % ("chain-valid-through-a-file-of-its-own-beside-the-bundle" if chain_valid and not any(
+                                                l in BUNDLES and gives_needed(l, m, mat) for l in all_labels) else
+                                            "chain-valid-through-the-first-block" if chain_valid else
+                                            "chain-valid-only-through-a-later-block" if later_only and m["can_validate"] else
+                                            "chain-valid-through-no-block"))
+        for l in all_labels:
+            if l in BUNDLES:
+                counts.append("auditd:bundle:blocks=%d" % len(BUNDLES[l]))
+        for src, ls in (("cli", cli), ("endpoint", ep), ("global", gl_eff)):
+            if any(l in BUNDLES for l in ls or []):
+                counts.append("auditd:bundle:source=%s" % src)
     if spec.get("count_as"):
         counts.append("%s:%s" % (spec["count_as"], "trusted" if (seen and attempt_ok) else "requests-but-failed" if seen else "refused"))
     for k in (b or {}).get("kinds", []):
@@ -524,6 +569,24 @@ def specs(ctx):
     for shape in sorted(FILE_DEBATABLE):
         for src in ([rng.choice(SOURCES)] if quick else SOURCES):
             add("shape", "trusted", count_as="rootfile:" + shape, **{src: [shape]})
+    # ---- files with several CERTIFICATE blocks: the root certificate given is the first block.  The two-block files
+    # against the chain of root A in every source (both tiers); the rest in one source each (thorough: in all three)
+    for src in SOURCES:
+        add("bundle", "trusted", count_as="rootfile:bundle_un", **{src: ["bundle_un"]})
+        add("bundle", "trusted", count_as="rootfile:bundle_nu", expect_ok=True, **{src: ["bundle_nu"]})
+    more = [("under-x", ["bundle_xn"], True),          # the first block is the root of THIS chain
+            ("under-x", ["bundle_nx"], False),         # ... the second block is
+            ("trusted", ["bundle_uun"], False), ("trusted", ["bundle_unu"], False), ("trusted", ["bundle_nuu"], True),
+            ("trusted", ["unrelated", "bundle_un"], False), ("trusted", ["bundle_un", "unrelated2"], False),
+            ("trusted", ["bundle_un", "needed"], True),   # the needed root is ALSO given by a file of its own
+            ("under-x", ["bundle_nu", "bundle_un"], False)]
+    off = rng.randrange(len(SOURCES))
+    for i, (ch, lst, ok) in enumerate(more):
+        for src in ([SOURCES[(i + off) % len(SOURCES)]] if quick else SOURCES):
+            add("bundle", ch, dump_roots=True, **dict({src: lst}, **({"expect_ok": True} if ok else {})))
+    # the file with the later block in one source, an unrelated single root in another
+    s1, s2 = rng.sample(SOURCES, 2)
+    add("bundle", "trusted", **{s1: ["bundle_un"], s2: ["unrelated2"]})
     add("shape", "trusted", expect_ok=True, dump_roots=True, cli=["needed"], endpoint=[])
     add("shape", "trusted", expect_ok=True, dump_roots=True, cli=["needed"], **{"global": []})
     add("shape", "trusted", expect_ok=True, dump_roots=True, endpoint=[], **{"global": ["needed"]})
